@@ -41,6 +41,7 @@ class Summary:
     raises: Dict[str, List[List[Any]]] = field(default_factory=dict)  # exc -> witnesses [Origin, call sites...]
     ret: Optional[AVal] = None
     writes_all: bool = False
+    exit: Optional[Facts] = None  # join of the facts at the normal exits
 
 
 class Config:
@@ -57,7 +58,11 @@ class Config:
         self.ext_raises: Dict[str, List[str]] = {}  # dotted external callable -> exception names
         self.exempt_asserts: Set[Tuple[str, str]] = set()  # (func qualname, normalised construct)
         self.exempt_unbound: Set[Tuple[str, str]] = set()  # (func qualname, variable)
+        self.exempt_ops: Set[Tuple[str, str, str]] = set()  # (func qualname, kind, normalised construct)
         self.decode_obligation = True
+        self.guard_implies: List[Tuple[str, str, str]] = []  # (class, guard attr, attr that is not None whenever the guard is truthy)
+        self.taint_call_attrs: Dict[str, Optional[str]] = {}  # external attribute calls returning received data -> kind
+        self.taint_returns: Dict[str, Optional[str]] = {}  # in-repo functions whose result is received data -> kind
         self.tainted_self_fields: Dict[str, Set[str]] = {}  # class qualname -> fields holding wire-derived ints
 
 
@@ -87,6 +92,10 @@ class Absint(ExprMixin, StmtMixin, CallMixin):
         self._ghost = 0
         self.skipped: List[str] = []
         self.ret_stack: List[List[AVal]] = []
+        self.yield_stack: List[List[AVal]] = []
+        self.tainted_attrs: Set[str] = set()
+        self.tainted_attrs_grew = False
+        self.attr_vals: Dict[str, AVal] = {}  # attribute name -> join of stored container shapes (may-flow, never used to discharge)
         self._last_val: AVal = AVal()
 
     # ------------------------------------------------------------ context
@@ -105,6 +114,32 @@ class Absint(ExprMixin, StmtMixin, CallMixin):
     # ------------------------------------------------------------ domain interface (generic parts)
     def join(self, a, b):
         return st_join(a, b)
+
+    def join_head(self, a, b):
+        """Join at a loop head: additionally look for order relations between atoms that occur in
+        equalities of either state (x <= y holding on entry and on the back edge is a loop invariant
+        even when neither state lists it explicitly)."""
+        j = st_join(a, b)
+        if a is None or b is None or j is None:
+            return j
+        atoms = set()
+        for E in list(a.f.eq) + list(b.f.eq):
+            for x in E.atoms():
+                atoms.add(x)
+        atoms = sorted(atoms)
+        if not (2 <= len(atoms) <= 10):
+            return j
+        f = j.f
+        for i, x in enumerate(atoms):
+            for y in atoms[i + 1:]:
+                d = Lin.atom(x) - Lin.atom(y)
+                for L in (d, -d):
+                    if L in f.ge:
+                        continue
+                    if a.f.entails_ge(L) and b.f.entails_ge(L) and not f.entails_ge(L):
+                        f2 = f.add_ge(L)
+                        f = f2 if f2 is not None else f
+        return j.with_f(f) or j
 
     def equal(self, a, b) -> bool:
         return st_equal(a, b)
@@ -131,7 +166,12 @@ class Absint(ExprMixin, StmtMixin, CallMixin):
         return st
 
     def loop_iter(self, s) -> None:
-        self.loop_records[(self.ctx, id(s))] = {"back": [], "node": s, "func": self.fi.qualname}
+        old = self.loop_records.get((self.ctx, id(s)), {})
+        rec = {"back": [], "node": s, "func": self.fi.qualname}
+        for k in ("range", "iter_taint", "tied", "local_bound"):
+            if k in old:
+                rec[k] = old[k]
+        self.loop_records[(self.ctx, id(s))] = rec
 
     def loop_done(self, s, head, body_entry, back, interp) -> None:
         pass
@@ -144,9 +184,49 @@ class Absint(ExprMixin, StmtMixin, CallMixin):
         return st.with_f(st.f.kill(names=names))
 
     def kill_heap(self, st: St, attrs=None) -> St:
+        keep = [p for p in st.f.preds if p[0] == "notnone" and isinstance(p[1], str) and "." in p[1]
+                and "[" not in p[1] and self.sticky_notnone(p[1].rsplit(".", 1)[1])]
         if attrs is None:
-            return st.with_f(st.f.kill(all_heap=True))
-        return st.with_f(st.f.kill(attrs=attrs))
+            f = st.f.kill(all_heap=True)
+        else:
+            f = st.f.kill(attrs=attrs)
+        for p in keep:
+            # only the final attribute may have been reassigned; the path prefix must be stable (self.x)
+            if p[1].count(".") == 1:
+                f = f.add_pred(p)
+        return st.with_f(f)
+
+    def sticky_notnone(self, attr: str) -> bool:
+        """No assignment of None (or of a possibly-None value we cannot see) to `.attr` outside __init__:
+        once the attribute is known to be non-None it stays so."""
+        cache = self.__dict__.get("_sticky_cache")
+        if cache is None:
+            cache = {}
+            bad = set()
+            for fi in self.prog.functions.values():
+                if fi.name == "__init__":
+                    continue
+                for n in ast.walk(fi.node):
+                    tgts = []
+                    if isinstance(n, ast.Assign):
+                        tgts = [(t, n.value) for t in n.targets]
+                    elif isinstance(n, ast.AnnAssign) and n.value is not None:
+                        tgts = [(n.target, n.value)]
+                    for t, v in tgts:
+                        if isinstance(t, ast.Attribute):
+                            if isinstance(v, ast.Constant) and v.value is None:
+                                bad.add(t.attr)
+                            elif isinstance(v, (ast.IfExp, ast.BoolOp)):
+                                bad.add(t.attr)
+                            elif isinstance(v, ast.Call) and isinstance(v.func, ast.Attribute) and v.func.attr in ("get", "pop"):
+                                bad.add(t.attr)
+                        elif isinstance(t, (ast.Tuple, ast.List)):
+                            for x in ast.walk(t):
+                                if isinstance(x, ast.Attribute):
+                                    bad.add(x.attr)
+            cache["__bad__"] = bad
+            self._sticky_cache = cache
+        return attr not in cache["__bad__"]
 
     # ------------------------------------------------------------ running
     def initial_state(self, fi: FuncInfo, facts: Facts = None, tainted: Set[str] = None) -> St:
@@ -165,8 +245,9 @@ class Absint(ExprMixin, StmtMixin, CallMixin):
     def analyze_root(self, fi: FuncInfo) -> Summary:
         return self.analyze(fi, (), Facts(), set(), {})
 
-    def analyze(self, fi: FuncInfo, sig: Any, facts: Facts, tainted: Set[str], pvals: Dict[str, AVal]) -> Summary:
-        key = (fi.qualname, sig)
+    def analyze(self, fi: FuncInfo, sig: Any, facts: Facts, tainted: Set[str], pvals: Dict[str, AVal],
+                assume_inv: bool = True) -> Summary:
+        key = (fi.qualname, sig, assume_inv)
         if key in self.memo:
             return self.memo[key]
         if any(k[0] == fi.qualname for k in self.in_progress):
@@ -179,7 +260,10 @@ class Absint(ExprMixin, StmtMixin, CallMixin):
         saved_pvals = getattr(self, "_pvals", None)
         self._pvals = pvals
         self.ret_stack.append([])
+        self.yield_stack.append([])
         try:
+            if assume_inv:
+                facts = self.with_invariants(fi, facts)
             st = self.initial_state(fi, facts, tainted)
             act = self.interp.run(fi, st)
             summ = Summary()
@@ -191,6 +275,11 @@ class Absint(ExprMixin, StmtMixin, CallMixin):
                 lst = summ.raises.setdefault(exc_name, [])
                 if len(lst) < 80 and all(w[0].key != witness[0].key for w in lst):
                     lst.append(list(witness))
+            from .lin import join_facts
+            ex = None
+            for rst, _rn in act.returns:
+                ex = rst.f if ex is None else join_facts(ex, rst.f)
+            summ.exit = ex
             rets = self.ret_stack[-1]
             if isinstance(fi.node, ast.Lambda):
                 rets = [self._last_val]
@@ -200,9 +289,16 @@ class Absint(ExprMixin, StmtMixin, CallMixin):
             for i, v in enumerate(rets):
                 ret = v if i == 0 else (self.join_vals(ret, v) if ret is not None else None)
             summ.ret = ret
+            ys = self.yield_stack[-1]
+            if ys:
+                el = ys[0]
+                for y in ys[1:]:
+                    el = self.join_vals(el, y) or AVal(taint=el.taint or y.taint)
+                summ.ret = AVal(kind="list", elem=el, taint=any(y.taint for y in ys))
         finally:
             self._pvals = saved_pvals
             self.ret_stack.pop()
+            self.yield_stack.pop()
             self.chain.pop()
             self.ctx_stack.pop()
             self.in_progress.pop()
@@ -235,6 +331,81 @@ class Absint(ExprMixin, StmtMixin, CallMixin):
         if a.elem is not None and b.elem is not None:
             out.elem = self.join_vals(a.elem, b.elem)
         return out
+
+    def with_invariants(self, fi: FuncInfo, facts: Optional[Facts]) -> Optional[Facts]:
+        inv = getattr(self, "invariants", None)
+        if inv is None or fi.cls is None or fi.parent is not None or fi.name == "__init__" or not fi.params or fi.params[0] != "self":
+            return facts
+        iv = inv.for_class(fi.cls)
+        if iv is None:
+            return facts
+        f = facts or Facts()
+        for G in iv.ge:
+            f2 = f.add_ge(G); f = f2 if f2 is not None else f
+        for E in iv.eq:
+            f2 = f.add_eq(E); f = f2 if f2 is not None else f
+        for p in iv.preds:
+            f = f.add_pred(p)
+        return f
+
+    def held_invariants(self, st: St) -> List[Any]:
+        """Class invariants of the current method's class that hold in `st` (to be re-established after a
+        call to another method of the same object or a suspension point)."""
+        inv = getattr(self, "invariants", None)
+        if inv is None or not self.interp.stack:
+            return []
+        fi = self.fi
+        if fi.cls is None or not fi.params or fi.params[0] != "self":
+            return []
+        iv = inv.for_class(fi.cls) if fi.name != "__init__" else None
+        if iv is None:
+            return []
+        out = []
+        for G in iv.ge:
+            if G in st.f.ge or st.f.entails_ge(G):
+                out.append(("ge", G))
+        for E in iv.eq:
+            if E in st.f.eq or st.f.entails_eq(E):
+                out.append(("eq", E))
+        for p in iv.preds:
+            if p in st.f.preds or self.float_pred_holds(st, p):
+                out.append(("pred", p))
+        return out
+
+    def float_pred_holds(self, st: St, p) -> bool:
+        if p[0] == "flo":
+            return any(q[0] == "flo" and q[1] == p[1] and q[2] >= p[2] for q in st.f.preds)
+        if p[0] == "fhi":
+            return any(q[0] == "fhi" and q[1] == p[1] and q[2] <= p[2] for q in st.f.preds)
+        return False
+
+    def restore(self, st: St, held: List[Any]) -> St:
+        f = st.f
+        for kind, x in held:
+            if kind == "ge":
+                f2 = f.add_ge(x)
+            elif kind == "eq":
+                f2 = f.add_eq(x)
+            else:
+                f2 = f.add_pred(x)
+            f = f2 if f2 is not None else f
+        return st.with_f(f) or st
+
+    def new_pass(self) -> None:
+        """Forget per-context results but keep the name-based heap knowledge (tainted attribute names,
+        stored container shapes) so that a second pass sees stores regardless of analysis order."""
+        self.obs.clear()
+        self.memo.clear()
+        self.loop_records.clear()
+        self.analysed_funcs.clear()
+        self.__dict__.pop("_name_vals", None)
+
+    def heap_signature(self):
+        def shape(v, d=0):
+            if v is None or d > 4:
+                return None
+            return (v.kind, v.lo, v.hi, v.taint, shape(v.elem, d + 1), tuple(shape(x, d + 1) for x in v.elems) if v.elems is not None else None)
+        return (frozenset(self.tainted_attrs), tuple(sorted((k, shape(v)) for k, v in self.attr_vals.items())))
 
     # ------------------------------------------------------------ results
     def results(self) -> Dict[Tuple[str, int, str], List[Ob]]:
